@@ -743,20 +743,31 @@ def emitted_walk(af):
             return None, f"negative literal {lit} in unsigned {T}"
         if not fits(lit):
             return None, f"literal {lit} out of range for {T}"
-        v = base + lit
-        if not fits(v):
-            return None, f"{base} + {lit} overflows {T}"
-        if m["repeat"]:
-            st = int(m["repeat"]["stride_abs"])
-            idx = i
-            if not fits(idx) or not fits(st):
-                return None, f"index {idx} or stride {st} does not fit {T}"
-            prod = idx * st
-            if not fits(prod):
-                return None, f"{idx} * {st} overflows {T}"
-            v = v + prod if m["repeat"]["op"] == "+" else v - prod
+        if not m["repeat"]:
+            v = base + lit
             if not fits(v):
-                return None, f"address {v} overflows {T}"
+                return None, f"{base} + {lit} overflows {T}"
+            return v, None
+        st = int(m["repeat"]["stride_abs"])
+        if not fits(i) or not fits(st):
+            return None, f"index {i} or stride {st} does not fit {T}"
+        prod = i * st
+        if not fits(prod):
+            return None, f"{i} * {st} overflows {T}"
+        # the sum is evaluated left to right in T, in the order the terms are emitted
+        term = {"b": base, "a": lit, "i": prod if m["repeat"]["op"] == "+" else -prod}
+        order = m["repeat"].get("order") or "bai"
+        v = None
+        for t in order:
+            if v is None:
+                v = term[t]
+                if t == "i" and v < 0:
+                    return None, f"a leading negated index term in {T}"
+            else:
+                w = v + term[t]
+                if not fits(w):
+                    return None, f"{v} {'+' if term[t] >= 0 else '-'} {abs(term[t])} overflows {T}"
+                v = w
         return v, None
 
     def walk(block, base, path, depth):
